@@ -90,6 +90,11 @@ func FieldsFromStruct(t reflect.Type) TypesTable {
 		// of declaration is, and only names at the same depth are ambiguous.
 		for name := range types {
 			if f, ok := t.FieldByName(name); ok {
+				if f.PkgPath != "" {
+					// Unexported fields cannot be read by the VM.
+					delete(types, name)
+					continue
+				}
 				types[name] = Tag{Type: f.Type}
 			} else {
 				types[name] = Tag{Ambiguous: true}
